@@ -17,6 +17,7 @@ import (
 	"strings"
 	"testing"
 	"time"
+	"unicode/utf8"
 
 	"github.com/gorilla/websocket"
 )
@@ -403,7 +404,7 @@ func vC10Hostile(r *vRand) *vJ {
 
 // vC10Mutate applies one structure-aware mutation in place; returns whether
 // the document must be padded (oversized leaf).
-func vC10Mutate(r *vRand, doc *vJ) (pad bool) {
+func vC10Mutate(r *vRand, doc *vJ, padded bool) (pad bool) {
 	var slots []vJSlot
 	doc.slots(&slots)
 	if len(slots) == 0 {
@@ -454,7 +455,7 @@ func vC10Mutate(r *vRand, doc *vJ) (pad bool) {
 			}
 		}
 	case 10: // oversized string leaf
-		if s.get().kind == 's' && !strings.HasPrefix(s.get().s, "$") {
+		if s.get().kind == 's' && !strings.HasPrefix(s.get().s, "$") && !padded && !strings.Contains(doc.String(), "@PAD@") {
 			s.set(&vJ{kind: 's', pad: true})
 			return true
 		}
@@ -569,7 +570,7 @@ func vC10RoomClass(s string) string {
 	if strings.Contains(s, "$") {
 		return "amb"
 	}
-	return "o"
+	return "o:" + s
 }
 
 func b01(b bool) string {
@@ -581,7 +582,8 @@ func b01(b bool) string {
 
 type vShape struct{ toks []string }
 
-func (s *vShape) add(k, v string) { s.toks = append(s.toks, k+"="+vEnc(v)) }
+// add appends a token; the decoder does not check UTF-8, the driver's tokens must be valid.
+func (s *vShape) add(k, v string) { s.toks = append(s.toks, k+"="+vEnc(strings.ToValidUTF8(v, "\uFFFD"))) }
 
 func vC10DataShape(s *vShape, p string, data json.RawMessage) {
 	s.add(p+".data", b01(len(data) > 0))
@@ -640,9 +642,16 @@ func vC10MsgShape(s *vShape, p string, m *MessageClientMessage) {
 // unambiguously (the generator then drops it).
 func vC10Shape(template string, pad int, binary bool) (toks []string, ok bool) {
 	s := &vShape{}
+	// for a padded document `pad` is the total size of the frame that will be sent
+	// (the padding is computed when the placeholders have been substituted)
 	size := len(template)
+	padLen := 0
 	if strings.Contains(template, "@PAD@") {
-		size += pad - len("@PAD@")
+		size = pad
+		padLen = pad - (len(template) - len("@PAD@"))
+		if padLen < 1 {
+			padLen = 1
+		}
 	}
 	s.add("size", strconv.Itoa(size))
 	if binary {
@@ -650,7 +659,7 @@ func vC10Shape(template string, pad int, binary bool) (toks []string, ok bool) {
 	} else {
 		s.add("frame", "text")
 	}
-	doc := strings.ReplaceAll(template, "@PAD@", strings.Repeat("A", pad))
+	doc := strings.ReplaceAll(template, "@PAD@", strings.Repeat("A", padLen))
 	var m ClientMessage
 	var derr error
 	panicked := false
@@ -689,6 +698,7 @@ func vC10Shape(template string, pad int, binary bool) (toks []string, ok bool) {
 		s.add("id", "o")
 	}
 	s.add("type", m.Type)
+	s.add("type.utf8", b01(utf8.ValidString(m.Type)))
 	s.add("hello", b01(m.Hello != nil))
 	s.add("bye", b01(m.Bye != nil))
 	s.add("room", b01(m.Room != nil))
@@ -876,15 +886,18 @@ func vC10GenDoc(r *vRand) (string, int, bool) {
 	}
 	pad := 0
 	nmut := []int{0, 0, 1, 1, 1, 2, 2, 3}[r.intn(8)]
+	padded := false
 	for k := 0; k < nmut; k++ {
-		if vC10Mutate(r, doc) {
-			// sizes around the limit, and clearly below / above it
-			base := len(doc.String()) - len("@PAD@")
-			target := []int{100, 1000, 30000, maxMessageSize - 1, maxMessageSize, maxMessageSize + 1, maxMessageSize + 2, 2 * maxMessageSize, 200000}[r.intn(9)]
-			pad = target - base
-			if pad < 1 {
-				pad = 1
-			}
+		if vC10Mutate(r, doc, padded) {
+			padded = true
+		}
+	}
+	if padded {
+		// sizes around the limit, and clearly below / above it
+		pad = []int{1000, 30000, maxMessageSize - 1, maxMessageSize, maxMessageSize + 1, maxMessageSize + 2, 2 * maxMessageSize, 200000}[r.intn(8)]
+		// the frame has exactly `pad` bytes only if the rest (with ids substituted) fits
+		if rest := len(doc.String()) + 2048; pad < rest {
+			pad = rest
 		}
 	}
 	return doc.String(), pad, false
@@ -996,8 +1009,19 @@ func vC10Join(kinds []string) string {
 }
 
 func (x *vC10Exec) subst(doc string, pad int) string {
+	doc = x.substIds(doc)
+	if strings.Contains(doc, "@PAD@") {
+		n := pad - (len(doc) - len("@PAD@"))
+		if n < 1 {
+			n = 1
+		}
+		doc = strings.Replace(doc, "@PAD@", strings.Repeat("A", n), 1)
+	}
+	return doc
+}
+
+func (x *vC10Exec) substIds(doc string) string {
 	w := x.w
-	doc = strings.ReplaceAll(doc, "@PAD@", strings.Repeat("A", pad))
 	if !strings.Contains(doc, "$") {
 		return doc
 	}
@@ -1020,6 +1044,18 @@ func (x *vC10Exec) subst(doc string, pad int) string {
 	return strings.NewReplacer(rep...).Replace(doc)
 }
 
+func (x *vC10Exec) ensureWorld(t *testing.T) error {
+	if x.w != nil {
+		return nil
+	}
+	w, err := vC10NewWorld(t, false)
+	if err != nil {
+		return err
+	}
+	x.w = w
+	return nil
+}
+
 func (x *vC10Exec) op(t *testing.T, op string) string {
 	f := strings.Fields(op)
 	if len(f) == 0 {
@@ -1038,16 +1074,28 @@ func (x *vC10Exec) op(t *testing.T, op string) string {
 		x.w = w
 		return "ok"
 	case "state":
-		if x.w == nil || len(f) < 2 {
-			return "fail:no-world"
+		if len(f) < 2 {
+			return "fail:bad-op"
+		}
+		if err := x.ensureWorld(t); err != nil {
+			return "fail:" + vEnc(err.Error())
 		}
 		if err := x.w.setState(f[1]); err != nil {
 			return "fail:" + vEnc(err.Error())
 		}
 		return "ok"
 	case "msg":
-		if x.w == nil || len(f) < 3 {
-			return "fail:no-world"
+		if len(f) < 3 {
+			return "fail:bad-op"
+		}
+		// a case without `world` / `state` (shrunk cases): plain world, connection without session
+		if err := x.ensureWorld(t); err != nil {
+			return "fail:" + vEnc(err.Error())
+		}
+		if x.w.snd == nil && x.w.state == "" {
+			if err := x.w.setState("nosession"); err != nil {
+				return "fail:" + vEnc(err.Error())
+			}
 		}
 		return x.msg(f)
 	}
